@@ -50,21 +50,25 @@ Proof. unfold join_rows. destruct (first_pair_rpos a) as [pa|]; [|discriminate].
 
 (* ---------- resolve ---------- *)
 Lemma resolve_groups_spec d G : forall joined sep, resolve_groups d G = Ok (joined, sep) ->
-  (forall j, In j joined -> exists x y t, In (x :: y :: t) G /\ check_overlap x y d = true /\ join_rows x y = Ok j) /\
+  (forall j, In j joined -> exists x y t, In (x :: y :: t) G /\ check_overlap x y d = true /\ join_rows x y = Ok j /\ joined_ok j = true) /\
   (exists used, Permutation (concat G) (sep ++ used)).
 Proof. induction G as [|g G IH]; intros joined sep H.
   - cbn in H. injection H as <- <-. split; [intros j []|]. exists []. reflexivity.
   - cbn [resolve_groups] in H. destruct (resolve_groups d G) as [[j0 s0]|] eqn:E; [|discriminate]. cbn [bind] in H.
     destruct (IH _ _ eq_refl) as (HJ & used & HP).
-    assert (HJ' : forall j, In j j0 -> exists x y t, In (x :: y :: t) (g :: G) /\ check_overlap x y d = true /\ join_rows x y = Ok j).
-    { intros j Hj. destruct (HJ j Hj) as (x & y & t & Hin & Hc & Hr). exists x, y, t. split; [right; exact Hin|]. split; assumption. }
+    assert (HJ' : forall j, In j j0 -> exists x y t, In (x :: y :: t) (g :: G) /\ check_overlap x y d = true /\ join_rows x y = Ok j /\ joined_ok j = true).
+    { intros j Hj. destruct (HJ j Hj) as (x & y & t & Hin & Hc & Hr & Hk). exists x, y, t. split; [right; exact Hin|]. repeat split; assumption. }
     destruct g as [|x [|y t]].
     + injection H as <- <-. split; [exact HJ'|]. exists used. exact HP.
     + cbn [fst snd] in H. injection H as <- <-. split; [exact HJ'|]. exists used. cbn [concat app]. constructor. exact HP.
     + destruct (check_overlap x y d) eqn:Ec.
-      * destruct (join_rows x y) as [j|] eqn:Ej; [|discriminate]. cbn [bind fst snd] in H. injection H as <- <-. split.
-        -- intros j' [<-|Hj]; [|apply HJ'; exact Hj]. exists x, y, t. split; [left; reflexivity|]. split; assumption.
-        -- exists ((x :: y :: t) ++ used). cbn [concat]. rewrite HP. apply Permutation_app_swap_app.
+      * destruct (join_rows x y) as [j|] eqn:Ej; [|discriminate]. cbn [bind fst snd] in H.
+        destruct (joined_ok j) eqn:Ek; injection H as <- <-.
+        -- split.
+           ++ intros j' [<-|Hj]; [|apply HJ'; exact Hj]. exists x, y, t. split; [left; reflexivity|]. repeat split; assumption.
+           ++ exists ((x :: y :: t) ++ used). cbn [concat]. rewrite HP. apply Permutation_app_swap_app.
+        -- (* repair F9: a pair-less joined row does not replace its parts *)
+           split; [exact HJ'|]. exists used. cbn [concat]. rewrite HP, app_assoc. reflexivity.
       * cbn [fst snd] in H. injection H as <- <-. split; [exact HJ'|]. exists used. cbn [concat]. rewrite HP, app_assoc. reflexivity.
 Qed.
 
@@ -88,10 +92,10 @@ Proof. unfold resolve_groups_of. rewrite in_flat_map. intros (b & Hb & Hg).
 Lemma resolve_two_lists f1 f2 d joined sep : kstrict qid f1 -> kstrict qid f2 ->
   results_resolve (f1 ++ f2) d = Ok (joined, sep) ->
   (forall j, In j joined -> exists x y, In x f1 /\ In y f2 /\ qid x = qid y /\ rid x = rid y /\
-                                         check_overlap x y d = true /\ join_rows x y = Ok j) /\
+                                         check_overlap x y d = true /\ join_rows x y = Ok j /\ joined_ok j = true) /\
   (exists used, Permutation (f1 ++ f2) (sep ++ used)).
 Proof. intros K1 K2 H. unfold results_resolve in H. apply resolve_groups_spec in H. destruct H as (HJ & used & HP). split.
-  - intros j Hj. destruct (HJ j Hj) as (x & y & t & Hin & Hc & Hr).
+  - intros j Hj. destruct (HJ j Hj) as (x & y & t & Hin & Hc & Hr & Hk).
     destruct (resolve_groups_of_filter _ _ Hin) as (r & c & E). rewrite filter_app, filter_app in E.
     rewrite (filter_comm _ _ f1), (filter_comm _ _ f2) in E.
     assert (A1 := kstrict_filter_le1 qid f1 c K1). assert (A2 := kstrict_filter_le1 qid f2 c K2).
